@@ -322,6 +322,21 @@ pub fn generate(cx: &super::GenCtx) -> Vec<Plan> {
         s.push(Action::WaitBestmove);
         s.push(Action::WaitIdle);
     }
+    // The clauses hold "once a 3-ply iteration has completed" - also for a search that is cut
+    // short later: one or two searches interrupted by a node budget or a stop at a random point
+    for _ in 0..rng.range(0, 2) {
+        let hi = 60_000.0f64;
+        let n = ((hi.ln() - 150.0f64.ln()) * rng.f64() + 150.0f64.ln()).exp() as u64;
+        if rng.chance(2, 3) {
+            s.push(Action::send(format!("go depth 8 nodes {n}")));
+        } else {
+            s.push(Action::send("go infinite"));
+            s.push(Action::DelaySteps(2 * n));
+            s.push(Action::send("stop"));
+        }
+        s.push(Action::WaitBestmove);
+        s.push(Action::WaitIdle);
+    }
     s.push(Action::send("quit"));
     plan.script = s;
     plan.cost_ns = *rng.pick(&[200, 1000, 5000]);
@@ -398,7 +413,14 @@ pub fn check(plans: &[Plan], recs: &[RunRec]) -> Outcome {
             }
             continue;
         };
-        let asked = v.limits.depth.unwrap_or(0);
+        if v.limits.nodes.is_some() || v.limits.infinite {
+            out.stats.inc("reach.interrupted_search_after_depth3");
+        }
+        let asked = if v.limits.nodes.is_some() || v.limits.infinite {
+            0 // an interrupted search is judged only if it reported depth 3 itself
+        } else {
+            v.limits.depth.unwrap_or(0)
+        };
         if completed3 {
             completed3_before = true;
         } else if asked >= 3 && completed3_before {
